@@ -223,7 +223,7 @@ RestoreOK ==
      ELSE IF Ev.cfgeq = FALSE THEN Reject("C10", "restore: rebuilt configuration differs from the original")
      ELSE IF Ev.dtypeok = FALSE THEN Reject("C10", "restore: restored values have a different dtype")
      ELSE IF Ev.route = "restore" /\ (Ev.nfreq # Ev.wantfreq \/ Ev.nkeep # Ev.wantkeep \/ Ev.nasync # Ev.wantasync \/ Ev.ndir # Ev.wantdir)
-       THEN Reject("C10", "restore: overrides (directory, frequency, retention, async) did not take effect as given")
+       THEN Reject("C10", "restore: overrides (directory, frequency, retention, async) did not take effect as given / later saves do not go to the directory the restored run belongs to")
      ELSE /\ iter' = Ev.iter /\ incall' = FALSE
           /\ dir' = Ev.ndir /\ freq' = Ev.nfreq /\ keep' = Ev.nkeep /\ isasync' = Ev.nasync
           /\ restoredOlder' = (Ev.ndir = Ev.src /\ Ev.iter < SetMax(src))
